@@ -13,6 +13,7 @@ import Martian.Semaphore
 import Proofs.Semaphore
 import Proofs.SemaphoreRun
 import Proofs.SemaphoreMJ
+import Proofs.SemaphoreNest
 import Gen.Facts
 
 namespace Props.C12
@@ -194,6 +195,27 @@ theorem progress_round (size : Int) (ops : List COp) (hop : ∀ op ∈ ops, op.r
   have := round_facts _ (grun_inv (G.init size) ops (good_init size) hop).1
   exact ⟨this.2.2.1, this.2.2.2⟩
 
+/-! ## Nested acquisition of a local job (cores → memory → vmem → processes) -/
+
+/-- **No deadlock among the nested semaphores.**  Take any list of semaphores
+acquired in list order, each in a state reachable by well-behaved clients
+(`Good`) with availability at the maximum, whose holders have the shape that
+hold-and-wait in one global order produces (`Disciplined`: a holder of one
+semaphore holds all later ones or is queued on a later one; holders of later
+semaphores hold the earlier ones).  If no job runs (nobody holds them all),
+then nobody waits on any of them: "all jobs blocked, none running" is
+impossible.
+
+Partial: that every instant of `LocalJobManager.Enqueue` with no job between
+two `Acquire` calls is `Disciplined` is not proved here; it rests on the shape
+of `Enqueue` (one acquisition order — regenerated obligation
+`acquire_order_ok` —, releases deferred until the job has run) and is
+monitored on real jobs by the harness (`C12:local:stall`). -/
+theorem ordered_acquisition_no_deadlock_partial (ps : List (Sem × List Waiter))
+    (hg : ∀ p ∈ ps, Good p ∧ p.1.cur = p.1.max) (hd : Disciplined ps)
+    (hnorun : ∀ id, ¬ ∀ p ∈ ps, id ∈ hid p) : ∀ p ∈ ps, p.1.waiters = [] :=
+  nested_queues_empty ps hg hd hnorun
+
 /-! ## MaxJobsSemaphore -/
 
 /-- **In cluster mode at most `limit` jobs hold the semaphore**, and each job
@@ -360,6 +382,22 @@ example :
     let ops : List COp := [.acquire 1 6, .acquire 2 5, .release 1, .release 2]
     (∀ op ∈ ops, op.reqNonneg) ∧ (grun (G.init 10) ops).1.held = [] ∧
     (grun (G.init 10) ops).1.sem.cur = (grun (G.init 10) ops).1.sem.max := by dsimp only; decide
+
+/-- `ordered_acquisition_no_deadlock_partial`: the hypotheses hold for an idle
+system, and `Disciplined` also admits busy states (job 1 runs holding both
+semaphores, job 2 holds the first and is queued on the second). -/
+example :
+    (∀ p ∈ [(Sem.init 4, ([] : List Waiter)), (Sem.init 8, [])], Good p ∧ p.1.cur = p.1.max) ∧
+    Disciplined [(Sem.init 4, []), (Sem.init 8, [])] ∧
+    (∀ id, ¬ ∀ p ∈ [(Sem.init 4, ([] : List Waiter)), (Sem.init 8, [])], id ∈ hid p) ∧
+    Disciplined [(⟨4, 4, 4, []⟩, [(1, 2), (2, 2)]), (⟨8, 8, 6, [(2, 5)]⟩, [(1, 6)])] := by
+  refine ⟨?_, ?_, ?_, ?_⟩
+  · intro p hp
+    simp only [List.mem_cons, List.not_mem_nil, or_false] at hp
+    rcases hp with h | h <;> subst h <;> exact ⟨good_fresh _, rfl⟩
+  · simp [Disciplined, hid]
+  · intro id h; have := h (Sem.init 4, []) (by simp); simp [hid] at this
+  · simp [Disciplined, hid, wid]
 
 /-- a sane configuration; zero, adaptive and oversized requests -/
 example : Sane ⟨4, 8, 16384, 1, 1, 3⟩ ∧
